@@ -131,6 +131,10 @@ def main():
     nontriv, samples = set(), []
     for i, (p, r, m) in enumerate(zip(progs, impl, model)):
         R.count("nodes:%d" % min(count_nodes(p), 15))
+        for k, snap in enumerate(r.get("recursion_probe", [])):
+            if snap[0] != 0 or snap[2].strip() != "":
+                R.violation("property", "after a recursion through `with jaxtyped('context')` blocks ran into the recursion limit and the RecursionError was caught at the top (stack alignment %d): context depth %d, print_bindings() shows %r -- a context outlived its block" % (k, snap[0], snap[2]),
+                            {"recursion_probe": r["recursion_probe"], "alignment": k}, key={"kind": "recursion-leak"})
         for o in r["oracle"]:
             R.violation("property", "the caller's bindings changed across a %s (%s): before (depth, bindings) %s, after %s" % (o["node"], {k: v for k, v in o.items() if k not in ("before", "after", "node")}, o["before"][:2], o["after"][:2]),
                         {"program": p, "one_context_object": shared[i], "oracle": o}, key={"kind": "caller-changed", "node": o["node"], "exit": o.get("exit")})
